@@ -59,3 +59,9 @@ pub uninterp spec fn to_owned_post<T>(x: T, r: T) -> bool;
 pub proof fn fact_to_owned_keyid()
     ensures forall|x: KeyId, r: KeyId| #[trigger] to_owned_post(x, r) ==> r == x
 {}
+
+// Option::or_else: keep a Some, otherwise the result of the closure
+pub assume_specification<T, F: FnOnce() -> Option<T>> [Option::<T>::or_else::<F>] (o: Option<T>, f: F) -> (r: Option<T>)
+    requires o is None ==> f.requires(()),
+    ensures o is Some ==> r == o,
+            o is None ==> f.ensures((), r);
